@@ -7,19 +7,30 @@ open Model.C02
 def label? : String → Option Label
   | "readerDeliver" => some .readerDeliver | "readerClose" => some .readerClose | "writeReturns" => some .writeReturns
   | "pickReply" => some .pickReply | "pickClose" => some .pickClose | "pickCtx" => some .pickCtx
-  | "ctxExpire" => some .ctxExpire | _ => none
+  | "ctxExpire" => some .ctxExpire | "innerExpire" => some .innerExpire | _ => none
 
 def showPhase : Phase → String
   | .sending => "sending" | .waiting => "waiting" | .gotReply => "reply" | .gotCloseErr => "close-error" | .gotCtxErr => "ctx-error"
 
-/-- `sched <cap> <drainFirst> <labels>` -/
+def sched (cap d own ls : String) : String :=
+  match cap.toNat?, Hex.bool? d, Hex.bool? own, (ls.splitOn ",").mapM label? with
+  | some cap, some d, some own, some ls =>
+    match run ⟨cap, d, own⟩ {} ls with
+    | none => "not-enabled"
+    | some s => showPhase s.phase ++ (if s.dropped then " dropped" else "")
+  | _, _, _, _ => "bad-op"
+
+/-- `sched <cap> <drainFirst> [<ownCtx>] <labels>`;
+`body <readsToEOF> <qid: 4 hex digits> <piece>,<piece>,...` (DoH: the response body as the pieces `Read` returns) -/
 def handle : List String → String
-  | ["sched", cap, d, ls] =>
-    match cap.toNat?, Hex.bool? d, (ls.splitOn ",").mapM label? with
-    | some cap, some d, some ls =>
-      match run ⟨cap, d⟩ {} ls with
-      | none => "not-enabled"
-      | some s => showPhase s.phase ++ (if s.dropped then " dropped" else "")
+  | ["sched", cap, d, ls] => sched cap d "1" ls
+  | ["sched", cap, d, own, ls] => sched cap d own ls
+  | ["body", toEOF, qid, pieces] =>
+    match Hex.bool? toEOF, Hex.decode qid, (pieces.splitOn ",").mapM Hex.decode with
+    | some toEOF, some qid, some body =>
+      match Doh.exchange toEOF qid body with
+      | .reply m => "reply:" ++ Hex.encode m
+      | .tooSmall => "error:too-small"
     | _, _, _ => "bad-op"
   | _ => "bad-op"
 
